@@ -1075,9 +1075,9 @@ def oracle_c12(case, ir):
             if abs(T) < F(1, 10 ** 12):
                 dead = True
                 continue
-            want = min(F(1), 1 / T) if T > 0 else None
-            if want is None:
-                return {"what": f"defining product is negative at index {j}: T = {float(T)}"}
+            # C12 is the identity history = min(1, 1/T_j), whatever the sign of T_j: a negative product (possible only
+            # for a fixed bet outside [0, 1/u], e.g. after test.u was raised) is C11's / C13's business, not a C12 failure
+            want = min(F(1), 1 / T)
             last = (j == len(x) - 1)
             if last and N is not None and not exact_inputs(case) and abs(sum(x) - N * t) < F(1, 10 ** 9):
                 continue   # the float total may land on either side of N*t: the final-sample rule is undecided
